@@ -61,6 +61,8 @@ def make_states(r):
         def affects_fn(idx, fi=fi):
             if r.random() > 0.5:
                 return None
+            if prefixes[0] == "cb" and r.random() < 0.6:
+                return ":cb%d" % r.choice([0, 1])      # byte-identical same-file references in several files
             refs = []
             for _ in range(r.choice([1, 1, 2, 3])):
                 fj = r.randrange(nfiles)
